@@ -17,6 +17,7 @@ func main() {
 	probe.Init()
 	for _, cs := range probe.Plan() {
 		custom, sc := cs.Custom, cs.Sc
+		probe.SetCase(cs)
 		// default resource name: METHOD:route
 		r := probe.New(key, sc, true, func(id string) string { return "GET:/" + id })
 		var opts []secho.Option
